@@ -61,3 +61,9 @@ Index.vos Index.vok Index.required_vos: Index.v Bytes.vos
 IndexFacts.vo IndexFacts.glob IndexFacts.v.beautified IndexFacts.required_vo: IndexFacts.v Bytes.vo BytesFacts.vo Segment.vo SegmentFacts.vo Index.vo
 IndexFacts.vio: IndexFacts.v Bytes.vio BytesFacts.vio Segment.vio SegmentFacts.vio Index.vio
 IndexFacts.vos IndexFacts.vok IndexFacts.required_vos: IndexFacts.v Bytes.vos BytesFacts.vos Segment.vos SegmentFacts.vos Index.vos
+OpenDir.vo OpenDir.glob OpenDir.v.beautified OpenDir.required_vo: OpenDir.v 
+OpenDir.vio: OpenDir.v 
+OpenDir.vos OpenDir.vok OpenDir.required_vos: OpenDir.v 
+OpenDirFacts.vo OpenDirFacts.glob OpenDirFacts.v.beautified OpenDirFacts.required_vo: OpenDirFacts.v OpenDir.vo
+OpenDirFacts.vio: OpenDirFacts.v OpenDir.vio
+OpenDirFacts.vos OpenDirFacts.vok OpenDirFacts.required_vos: OpenDirFacts.v OpenDir.vos
